@@ -177,6 +177,21 @@ template <class A> static void wide_exec(const vh::Json& sc, vh::Out& out) {
     w.E(); out.event(w); out.end();
 }
 
+// real-width range from an address and an ARBITRARY mask (wildcard masks, masks with zero octets in the middle): ends and membership
+template <class A> static void widemask_exec(const vh::Json& sc, vh::Out& out) {
+    typedef Tr<A> T; Bytes a = to_bytes(sc["a"]), m = to_bytes(sc["m"]);
+    out.begin("\"W\":0,\"what\":\"widemask\",\"t\":\"" + std::string(T::name()) + "\"");
+    vh::W w; w.O().kv("e", "widemask").kv("t", T::name()).kbytes("a", a).kbytes("m", m);
+    try {
+        AddressRange<A> r = AddressRange<A>::from_mask(T::make(a), T::make(m));
+        w.kv("threw", false);
+        const vh::Json& pr = sc["probes"];
+        w.key("probes").A(); for (size_t i = 0; i < pr.size(); ++i) { Bytes t = to_bytes(pr[i]); w.bytes(t.begin(), t.end()); } w.E();
+        w.key("contains").A(); for (size_t i = 0; i < pr.size(); ++i) w.v(r.contains(T::make(to_bytes(pr[i])))); w.E();
+    } catch (std::exception&) { w.kv("threw", true).key("probes").A().E().key("contains").A().E(); }
+    w.E(); out.event(w); out.end();
+}
+
 #define DISPATCH(t, CALL) do { if (t == "v4") { typedef IPv4Address A; CALL; } else if (t == "v6") { typedef IPv6Address A; CALL; } else { typedef HWAddress<6> A; CALL; } } while (0)
 
 static void scenario(const vh::Json& sc, vh::Out& out, vh::Rng&, const vh::Args&) {
@@ -194,5 +209,6 @@ static void scenario(const vh::Json& sc, vh::Out& out, vh::Rng&, const vh::Args&
     } else if (kind == "cmp") { std::string t = sc["t"].str(); DISPATCH(t, cmp_exec<A>(sc, out)); }
     else if (kind == "rt") { std::string t = sc["t"].str(); DISPATCH(t, rt_exec<A>(sc, out)); }
     else if (kind == "wide") { std::string t = sc["t"].str(); DISPATCH(t, wide_exec<A>(sc, out)); }
+    else if (kind == "widemask") { std::string t = sc["t"].str(); DISPATCH(t, widemask_exec<A>(sc, out)); }
 }
 int main(int argc, char** argv) { return vh::run(argc, argv, scenario); }
